@@ -673,9 +673,18 @@ func ruleTxOwnWrites(c *Ctx, r *Reporter) {
 			continue
 		}
 		for _, s := range sites {
-			elems := sliceLiteralElems(s.Common().Args[0])
+			var elems []ssa.Value
+			alts := sliceAlternatives(s.Common().Args[0], 0)
+			for _, alt := range alts {
+				if len(alt) >= 2 {
+					// report the first alternative that violates, else keep the last
+					if elems == nil || !derivesFromCall(alt[0], bufIter, 0) {
+						elems = alt
+					}
+				}
+			}
 			if len(elems) < 2 {
-				r.Undecided("transaction.TransactionImpl."+mn+":merge", c.InsPos(s), "merge sources are not a literal slice")
+				r.Undecided("transaction.TransactionImpl."+mn+":merge", c.InsPos(s), "merge sources cannot be resolved to a list of at least two sources")
 				continue
 			}
 			first := derivesFromCall(elems[0], bufIter, 0)
@@ -702,6 +711,23 @@ func ruleTxOwnWrites(c *Ctx, r *Reporter) {
 
 // sliceLiteralElems returns the values stored into the backing array of a slice literal, by index.
 func sliceLiteralElems(v ssa.Value) []ssa.Value {
+	switch x := v.(type) {
+	case *ssa.Call:
+		if b, ok := x.Call.Value.(*ssa.Builtin); ok && b.Name() == "append" && len(x.Call.Args) == 2 {
+			head := sliceLiteralElems(x.Call.Args[0])
+			tail := sliceLiteralElems(x.Call.Args[1])
+			if head == nil && !isEmptySlice(x.Call.Args[0]) {
+				return nil
+			}
+			if tail == nil {
+				return nil
+			}
+			return append(append([]ssa.Value{}, head...), tail...)
+		}
+		return nil
+	case *ssa.Phi:
+		return nil
+	}
 	sl, ok := v.(*ssa.Slice)
 	if !ok {
 		return nil
@@ -779,6 +805,52 @@ func findCallIn(v ssa.Value, f *ssa.Function, depth int) *ssa.Call {
 		if c2 := findCallIn(a, f, depth+1); c2 != nil {
 			return c2
 		}
+	}
+	return nil
+}
+
+func isEmptySlice(v ssa.Value) bool {
+	switch x := v.(type) {
+	case *ssa.Const:
+		return x.Value == nil
+	case *ssa.MakeSlice:
+		k, ok := constInt(x.Len)
+		return ok && k == 0
+	}
+	return false
+}
+
+// sliceAlternatives resolves a slice value built by literals, appends and phis into the possible element lists.
+func sliceAlternatives(v ssa.Value, d int) [][]ssa.Value {
+	if d > 4 {
+		return nil
+	}
+	if phi, ok := v.(*ssa.Phi); ok {
+		var out [][]ssa.Value
+		for _, e := range phi.Edges {
+			out = append(out, sliceAlternatives(e, d+1)...)
+		}
+		return out
+	}
+	if call, ok := v.(*ssa.Call); ok {
+		if b, ok := call.Call.Value.(*ssa.Builtin); ok && b.Name() == "append" && len(call.Call.Args) == 2 {
+			tail := sliceLiteralElems(call.Call.Args[1])
+			if tail == nil {
+				return nil
+			}
+			heads := sliceAlternatives(call.Call.Args[0], d+1)
+			if heads == nil && isEmptySlice(call.Call.Args[0]) {
+				heads = [][]ssa.Value{{}}
+			}
+			var out [][]ssa.Value
+			for _, h := range heads {
+				out = append(out, append(append([]ssa.Value{}, h...), tail...))
+			}
+			return out
+		}
+	}
+	if el := sliceLiteralElems(v); el != nil {
+		return [][]ssa.Value{el}
 	}
 	return nil
 }
